@@ -41,7 +41,7 @@ func runLBAcct(x *X) {
 	net := newStubNet(x)
 	for i := 0; i < nb; i++ {
 		name := fmt.Sprintf("b%d", i)
-		host := fmt.Sprintf("10.4.0.%d:80", i+1)
+		host := x.BackendHost(4, i+1)
 		net.add(name, host, "")
 		o.backends = append(o.backends, config.BackendConfig{Name: name, Address: "http://" + host, Weight: 1 + c.Intn(3, "w")})
 	}
